@@ -11,6 +11,9 @@ var cmds = map[string]func([]string){
 	"live-gen":   cmdLiveGen,
 	"live-rerun": cmdLiveRerun,
 	"live-walk":  cmdLiveWalk,
+	"smf-gen":    cmdSmfGen,
+	"smf-rerun":  cmdSmfRerun,
+	"vlq-sweep":  cmdVlqSweep,
 }
 
 func main() {
